@@ -16,6 +16,9 @@ ASSUME = [
     "the exit sequence is driven as set_status(Stopping); set_status(Stopped) on a detached cell (no actor task, no post_stop)",
     "supervision ports keep accepting after the monitor stopped (detached cells keep their ports until the end of the run)",
     "notification order on one port is not constrained (the property speaks of delivery, the model keeps a bag per monitor)",
+    "group listeners are those copied inside the region that changes the membership (the linearisation point); scope and "
+    "all-scopes listeners are those found when notify_world_listeners reads them, later in the same call: for them 'at that "
+    "time' is read at call granularity (a monitor_scope/demonitor_scope overlapping the call may or may not be told)",
 ]
 
 MC_CFGS = ["MC_Pg_exit.cfg", "MC_Pg_mon.cfg", "MC_Pg_world.cfg", "MC_Pg_twokeys.cfg", "MC_Pg_stale.cfg"]
